@@ -48,6 +48,8 @@ type Case struct {
 	// Between also enumerates the crash points between the anonymous-topic commit and the named-topic
 	// commit of one event (known finding restart/between-anon-and-named-commit: excluded by default)
 	Between bool `json:"between,omitempty"`
+	// BetweenKind enumerates the in-between crash points of one known kind only (witnesses)
+	BetweenKind string `json:"between_kind,omitempty"`
 }
 
 const rule = "rapid: alert config (info/warn/crit thresholds + resets, stateChangesOnly, noRecoveries, named topic, optional anonymous topic) x 5-30 points over 1-3 IDs; every storage commit boundary of the topic store is a crash point (snapshot of the Bolt file), followed by restart and continuation from a generated admissible resume position; " +
@@ -276,6 +278,7 @@ func readStore(path string) (map[string]map[string]storedState, error) {
 type runResult struct {
 	handler   []event
 	final     map[string]int // named topic: id -> level at the end
+	finalAnon map[string]int // anonymous topic, likewise
 	restored  map[string]map[string]storedState
 	commits   int
 	anonTopic string
@@ -284,7 +287,7 @@ type runResult struct {
 // runOnce opens service + TaskMaster + task on the Bolt file in dir, optionally checks the state
 // restored from it, feeds pts[from:] and returns what the named topic's handler saw.
 func runOnce(c Case, dir string, pts []kit.Pt, from int, snapshots bool, cc *kit.Case) (*runResult, bool) {
-	res := &runResult{final: map[string]int{}}
+	res := &runResult{final: map[string]int{}, finalAnon: map[string]int{}}
 	h := &recHandler{}
 	var mu sync.Mutex
 	active := false
@@ -333,6 +336,14 @@ func runOnce(c Case, dir string, pts []kit.Pt, from int, snapshots bool, cc *kit
 		}
 	}
 	env.Close()
+	if c.Anon {
+		// the anonymous topic is closed with the task: its final state is read from the store file
+		if st, err := readStore(filepath.Join(dir, "kapacitor.db")); err == nil {
+			for id, x := range st[res.anonTopic] {
+				res.finalAnon[id] = x.Level
+			}
+		}
+	}
 	res.handler = h.get()
 	return res, true
 }
@@ -450,7 +461,6 @@ func run(c Case, cc *kit.Case) {
 		named, anon := stored["T"], stored[r1.anonTopic]
 		// ---- the level each ID resumes at, per the property: the last recorded non-OK level
 		// (anonymous topic wins over the named one when both hold a state, as restoreEvent documents)
-		init := map[string]*idState{}
 		ids := map[string]bool{}
 		for id := range named {
 			ids[id] = true
@@ -459,50 +469,102 @@ func run(c Case, cc *kit.Case) {
 			ids[id] = true
 		}
 		between := c.Anon && k%2 == 1
-		if between && !c.Between {
-			excludedBetween++
-			os.RemoveAll(crashDir)
-			continue
-		}
 		sigPrefix := "restart/"
 		if between {
-			sigPrefix = "restart/between-anon-and-named-commit/"
-			cc.Label("crash-between-anon-and-named-commit")
-		}
-		for id := range ids {
-			st := &idState{}
-			n, nok := named[id]
-			a, aok := anon[id]
-			if c.Anon {
-				// the anonymous topic is written first: it holds the last recorded event
-				if aok {
-					st.cur = a.Level
+			// the event whose anonymous-topic commit is on file and whose named-topic commit is not
+			ev := full[(k-1)/perEvent]
+			kind := "change" // both topics hold a non-OK level, and they differ
+			switch {
+			case ev.Level == 0:
+				kind = "recovery" // the anonymous topic dropped the ID, the named one still holds it
+			case ev.Prev == 0:
+				kind = "first" // only the anonymous topic holds the ID
+			case ev.Prev == ev.Level:
+				kind = "same" // both hold the same level (a repeated event)
+			}
+			if kind == "change" {
+				// the two topics are reconciled when the ID's next point arrives
+				later := false
+				for _, p := range pts[resume:] {
+					if idOf(p) == ev.ID {
+						later = true
+					}
 				}
-			} else if nok {
-				st.cur = n.Level
+				if !later {
+					kind = "change-last"
+				}
 			}
-			if nok {
-				st.prevEmit = n.Level
+			if kind == "recovery" {
+				// the named topic still holds the ID's old non-OK level. Resuming there is admissible
+				// when it ends where the uninterrupted run ends (the recovery is repeated); it is not
+				// when the ID gets no further point or stays inside a reset band (known finding)
+				stale := &idState{cur: ev.Prev, prevEmit: ev.Prev}
+				c.model(pts, resume, map[string]*idState{ev.ID: stale})
+				if stale.cur != finalModel[ev.ID].cur {
+					kind = "recovery-stale"
+				}
 			}
-			init[id] = st
+			if (kind == "first" || kind == "change-last" || kind == "recovery-stale") && !c.Between && c.BetweenKind != kind {
+				// known finding restart/between-anon-and-named-commit/{first,change-last,recovery-stale}
+				excludedBetween++
+				os.RemoveAll(crashDir)
+				continue
+			}
+			sigPrefix = "restart/between-anon-and-named-commit/" + kind + "/"
+			cc.Label("crash-between-anon-and-named-commit:" + kind)
+		}
+		// candidate resume states: at a crash point between the two commits of one event both the
+		// anonymous topic's view (event recorded) and the named topic's view (event not yet
+		// recorded) are "the last level that was recorded"; elsewhere the two agree
+		mkInit := func(anonView bool) map[string]*idState {
+			init := map[string]*idState{}
+			for id := range ids {
+				st := &idState{}
+				n, nok := named[id]
+				a, aok := anon[id]
+				if c.Anon && anonView {
+					// the anonymous topic is written first: it holds the last recorded event
+					if aok {
+						st.cur = a.Level
+					}
+				} else if nok {
+					st.cur = n.Level
+				}
+				if nok {
+					st.prevEmit = n.Level
+				}
+				init[id] = st
+			}
+			return init
+		}
+		inits := []map[string]*idState{mkInit(true)}
+		if between {
+			inits = append(inits, mkInit(false))
 		}
 		// what the handlers had been told when the storage stood like this
 		told := map[string]int{}
 		for _, e := range full[:(k+perEvent-1)/perEvent] {
 			told[e.ID] = e.Level
 		}
-		exp2 := c.model(pts, resume, init)
-
 		r2, ok := runOnce(c, crashDir, pts, resume, false, cc)
 		if !ok {
 			return
 		}
 		where := fmt.Sprintf("crash after commit %d of %d (stored: T=%v anon=%v), resumed at point %d\nscript: %s\nuninterrupted events: %s", k, r1.commits, named, anon, resume, script, fmtEvents(full))
-		{
-			if !sameEvents(r2.handler, exp2, false) {
-				cc.Fail(sigPrefix+"events-differ", "after the restart the handler of topic T received %s, the reference (state machine started from the restored levels) says %s\n%s", fmtEvents(r2.handler), fmtEvents(exp2), where)
-				return
+		var init map[string]*idState
+		var exp2 []event
+		for _, cand := range inits {
+			e := c.model(pts, resume, cand)
+			if init == nil || sameEvents(r2.handler, e, false) {
+				init, exp2 = cand, e
+				if sameEvents(r2.handler, e, false) {
+					break
+				}
 			}
+		}
+		if !sameEvents(r2.handler, exp2, false) {
+			cc.Fail(sigPrefix+"events-differ", "after the restart the handler of topic T received %s, the reference (state machine started from the restored levels) says %s\n%s", fmtEvents(r2.handler), fmtEvents(exp2), where)
+			return
 		}
 		// no silent miss: every ID whose final level differs from what handlers were last told got an event with that level
 		finalLevels := map[string]int{}
@@ -540,6 +602,13 @@ func run(c Case, cc *kit.Case) {
 					// points in [lastPt+1, resume) were consumed before the crash without a commit: they did not change any level
 					cc.Fail(sigPrefix+"final-state", "final state of topic T after crash+restart: %s=%v(present=%v), uninterrupted run ends at %s\n%s", id, got, has, lvlName[st.cur], where)
 					return
+				}
+				if c.Anon {
+					got, has := r2.finalAnon[id]
+					if st.cur != 0 && (!has || got != st.cur) || st.cur == 0 && has && got != 0 {
+						cc.Fail(sigPrefix+"final-state-anon", "final state of the anonymous topic after crash+restart: %s=%v(present=%v), uninterrupted run ends at %s\n%s", id, got, has, lvlName[st.cur], where)
+						return
+					}
 				}
 			}
 		}
@@ -579,7 +648,8 @@ var assumptions = []string{
 	"crash points are the commit boundaries of the topic store (Bolt commits are atomic; torn writes are out of scope); a crash loses the points that were in flight: processing resumes with a later point",
 	"points between the one that caused commit k and the one that causes commit k+1 changed nothing that is recorded: the resume position is generated anywhere in that range",
 	"events are observed by a handler on the named topic T; with an anonymous topic as well, every event is committed to the anonymous topic first and to the named topic second: at a crash point between the two the last recorded event is the anonymous topic's",
-	"known finding restart/between-anon-and-named-commit: those in-between crash points are excluded by construction (counted) and covered by the replayed witness",
+	"at a crash point between the two commits of one event the ID may resume at either recorded level (the anonymous topic's or the named topic's); a repeated event is allowed, a final state different from the uninterrupted run or a silent miss is not",
+	"known finding restart/between-anon-and-named-commit/{first,change-last,recovery-stale}: in-between crash points of an event that raises an ID from OK, is a change between non-OK levels after which the ID gets no further point, or is a recovery after which the ID, resumed at the named topic's stale level, does not end where the uninterrupted run ends (no further point, or points inside a reset band), are excluded by construction (counted) and covered by the replayed witnesses; in-between crash points of the other level changes, of the other recoveries and of repeated events are checked",
 	"durations after a restart are not compared (the property does not state them)",
 	"noRecoveries: the withheld OK event is never recorded, so the final stored state is not compared with the uninterrupted run",
 	"level lambdas are thresholds over an integer field that every point carries; stream tasks",
